@@ -140,10 +140,11 @@ def rule_accepted_configurations(ctx):
                  cell, min_cells=100)
 
 
-def rule_newline(ctx):
+def rule_newline(ctx, rule="O12.4", sites=(("cutplace.rowio.delimited_rows", "r"), ("cutplace.rowio.AbstractRowWriter.__init__", "w"))):
+    """Text files whose line ends are data (delimited and fixed-width text) are opened with newline="": otherwise the
+    text layer translates CR and CR LF to LF on reading (and LF to os.linesep on writing) before cutplace sees them."""
     model = ctx.model
-    ctx.res.minimum("O12.4", 2)
-    sites = [("cutplace.rowio.delimited_rows", "r"), ("cutplace.rowio.AbstractRowWriter.__init__", "w")]
+    ctx.res.minimum(rule, len(sites))
     for qualname, mode in sites:
         info = model.func(qualname)
         calls = [n for n in walk_own(info.node) if isinstance(n, ast.Call) and dotted(n.func) in ("io.open", "open")]
@@ -151,9 +152,9 @@ def rule_newline(ctx):
         ok = len(calls) == 1 and any(k.arg == "newline" and isinstance(k.value, ast.Constant) and k.value.value == "" for k in calls[0].keywords) \
             and any(k.arg == "encoding" for k in calls[0].keywords)
         if ok:
-            ctx.res.ok("O12.4", what, True)
+            ctx.res.ok(rule, what, True)
         else:
-            ctx.res.fail("O12.4", what, "%s:O12.4:newline" % qualname.replace("cutplace.", ""), where_of(model, qualname),
+            ctx.res.fail(rule, what, "%s:%s:newline" % (qualname.replace("cutplace.", ""), rule), where_of(model, qualname),
                          "the %s side opens its file without newline='' (or without the format's encoding): line breaks inside cells and the "
                          "declared line delimiter are translated by the text layer" % ("reading" if mode == "r" else "writing"))
 
